@@ -98,6 +98,7 @@ type Summary struct {
 	HarnessErrs []string       `json:"harness_errors"`
 	Leaks       int            `json:"bubble_leaks"`
 	FirstSeed   uint64         `json:"first_seed"`
+	Hashes      []string       `json:"hashes,omitempty"`
 }
 
 var lastBeat atomic.Int64
@@ -117,7 +118,7 @@ func watchdog(limit time.Duration) {
 }
 
 // runOne executes the world once on the given tape.
-func runOne(t *testing.T, tape *simrt.Tape, a *Args, w WorldFunc, seed uint64, idx int) (res Result, leaked bool) {
+func runOne(t *testing.T, tape *simrt.Tape, a *Args, w WorldFunc, seed uint64, idx int, keepTrace ...bool) (res Result, leaked bool) {
 	res = Result{Seed: seed, Index: idx}
 	lastBeat.Store(time.Now().UnixNano())
 	curRun.Store(fmt.Sprintf("seed=%d idx=%d", seed, idx))
@@ -141,6 +142,7 @@ func runOne(t *testing.T, tape *simrt.Tape, a *Args, w WorldFunc, seed uint64, i
 		synctest.Test(t, func(t *testing.T) {
 			s := simrt.New(tape)
 			s.Verbose = a.Verbose
+			s.KeepTrace = len(keepTrace) > 0 && keepTrace[0]
 			defer func() {
 				// collect before tearing down
 				if r := recover(); r != nil {
@@ -159,8 +161,8 @@ func runOne(t *testing.T, tape *simrt.Tape, a *Args, w WorldFunc, seed uint64, i
 				res.Steps = s.Steps()
 				res.SimTime = s.Now()
 				res.Tape = tape.Recorded()
-				if len(res.Violations) > 0 || a.Mode != "batch" {
-					res.Trace = s.Events()
+				if s.KeepTrace {
+					res.Trace = s.Trace()
 				}
 				for _, p := range s.Panics() {
 					if p.Func == "HARNESS" {
@@ -178,12 +180,45 @@ func runOne(t *testing.T, tape *simrt.Tape, a *Args, w WorldFunc, seed uint64, i
 	return
 }
 
+// trimTape drops trailing zeros of every stream (an exhausted stream reads 0).
+func trimTape(m map[string][]int) map[string][]int {
+	out := map[string][]int{}
+	for k, v := range m {
+		n := len(v)
+		for n > 0 && v[n-1] == 0 {
+			n--
+		}
+		if n > 0 {
+			out[k] = append([]int(nil), v[:n]...)
+		}
+	}
+	return out
+}
+
 func tapeLen(m map[string][]int) int {
 	n := 0
-	for _, v := range m {
+	for _, v := range trimTape(m) {
 		n += len(v)
 	}
 	return n
+}
+
+func tapeSum(m map[string][]int) int {
+	n := 0
+	for _, v := range m {
+		for _, x := range v {
+			n += x
+		}
+	}
+	return n
+}
+
+func tapeLess(a, b map[string][]int) bool {
+	la, lb := tapeLen(a), tapeLen(b)
+	if la != lb {
+		return la < lb
+	}
+	return tapeSum(a) < tapeSum(b)
 }
 
 func cloneTape(m map[string][]int) map[string][]int {
@@ -202,22 +237,35 @@ func minimise(t *testing.T, a *Args, w WorldFunc, first Result, key string, budg
 		if time.Now().After(deadline) {
 			return false
 		}
+		t0 := time.Now()
 		r, _ := runOne(t, simrt.ReplayTape(cand), a, w, first.Seed, first.Index)
+		if os.Getenv("VERIF_DEBUG_MIN") != "" {
+			fmt.Fprintf(os.Stderr, "min: %v took %v\n", time.Now().Format("05.000"), time.Since(t0))
+			var ks []string
+			for _, v := range r.Violations {
+				ks = append(ks, v.Key)
+			}
+			fmt.Fprintf(os.Stderr, "min: cand len=%d -> keys=%v harness=%q steps=%d\n", tapeLen(cand), ks, r.Harness, r.Steps)
+		}
 		if r.Harness != "" {
 			return false
 		}
 		for _, v := range r.Violations {
 			if v.Key == key {
-				// keep the *recorded* tape of the successful candidate: it is
-				// exactly what was consumed
+				// keep the *recorded* tape of the successful candidate (what
+				// was actually consumed), but only if it is a real reduction
+				r.Tape = trimTape(r.Tape)
+				if !tapeLess(r.Tape, best.Tape) {
+					return false
+				}
 				best = r
 				return true
 			}
 		}
 		return false
 	}
-	// normalise: the recorded tape of a replay is what was consumed
-	cur := cloneTape(first.Tape)
+	best.Tape = trimTape(best.Tape)
+	cur := cloneTape(best.Tape)
 	improved := true
 	for improved && time.Now().Before(deadline) {
 		improved = false
@@ -277,7 +325,7 @@ func minimise(t *testing.T, a *Args, w WorldFunc, first Result, key string, budg
 			}
 		}
 	}
-	return best, tapeLen(best.Tape) < tapeLen(first.Tape)
+	return best, tapeLess(best.Tape, first.Tape)
 }
 
 // ReplayFile is the on-disk replay format.
@@ -337,7 +385,7 @@ func Main(t *testing.T, worlds map[string]WorldFunc) {
 		}
 		a.Extra = rf.Extra
 		a.Tier = rf.Tier
-		r, _ := runOne(t, simrt.ReplayTape(rf.Tape), &a, w, rf.Seed, rf.Index)
+		r, _ := runOne(t, simrt.ReplayTape(rf.Tape), &a, w, rf.Seed, rf.Index, true)
 		out := map[string]interface{}{"reproduced": false, "event_hash": r.EventHash, "expected_hash": rf.EventHash, "harness": r.Harness}
 		for _, v := range r.Violations {
 			if v.Key == rf.ViolationKey {
@@ -360,6 +408,13 @@ func Main(t *testing.T, worlds map[string]WorldFunc) {
 		return
 	}
 
+	if a.Mode == "one" {
+		seed := simrt.Mix(a.Seed, uint64(a.Start))
+		r, _ := runOne(t, simrt.NewTape(seed), &a, w, seed, a.Start, true)
+		b, _ := json.MarshalIndent(map[string]interface{}{"trace": r.Trace, "event_hash": r.EventHash, "sched_hash": r.SchedHash, "violations": r.Violations, "harness": r.Harness, "sample": r.Sample, "stats": r.Stats}, "", " ")
+		os.WriteFile(a.Out, b, 0o644)
+		return
+	}
 	start := time.Now()
 	sum := Summary{Prop: a.Prop, World: a.World, Stats: map[string]int{}}
 	distinct := map[string]bool{}
@@ -399,6 +454,9 @@ func Main(t *testing.T, worlds map[string]WorldFunc) {
 			distinct[r.Shape+"/"+r.SchedHash+"/"+r.EventHash] = true
 		}
 		scheds[r.SchedHash] = true
+		if a.Extra["hashes"] != "" {
+			sum.Hashes = append(sum.Hashes, fmt.Sprintf("%d/%v:%s:%s:%d", idx, knobs, r.EventHash, r.SchedHash, r.Steps))
+		}
 		if len(sum.Samples) < 3 && r.Sample != nil && r.Nontrivial {
 			sum.Samples = append(sum.Samples, r.Sample)
 		}
@@ -414,19 +472,23 @@ func Main(t *testing.T, worlds map[string]WorldFunc) {
 				if ok {
 					vo.Minimised = true
 					vo.Tape = best.Tape
-					vo.Trace = best.Trace
-					vo.EventHash = best.EventHash
-					for _, bv := range best.Violations {
-						if bv.Key == v.Key {
-							vo.Detail = bv.Detail
-						}
+				}
+			}
+			// one final replay: the stored hash, detail and trace are those of
+			// the replayed execution of the stored tape
+			{
+				rr, _ := runOne(t, simrt.ReplayTape(vo.Tape), &aa, w, seed, idx, true)
+				vo.EventHash = rr.EventHash
+				vo.Trace = rr.Trace
+				found := false
+				for _, bv := range rr.Violations {
+					if bv.Key == v.Key {
+						vo.Detail = bv.Detail
+						found = true
 					}
-				} else {
-					// normalise through one replay so that the stored hash is
-					// the hash of the replayed execution
-					rr, _ := runOne(t, simrt.ReplayTape(r.Tape), &aa, w, seed, idx)
-					vo.EventHash = rr.EventHash
-					vo.Trace = rr.Trace
+				}
+				if !found {
+					sum.HarnessErrs = append(sum.HarnessErrs, fmt.Sprintf("seed=%d idx=%d: violation %s did not reproduce from its own tape (nondeterminism)", seed, idx, v.Key))
 				}
 			}
 			vo.TapeLen = tapeLen(vo.Tape)
